@@ -588,6 +588,90 @@ func TestPropPhaseTwoBurst(t *testing.T) {
 	})
 }
 
+// ---- a locking read against a row lock that is not released while it tries -------------------------
+
+type stuckCase struct {
+	Kind    string `json:"kind"` // stuck-reader
+	Readers int    `json:"readers"`
+	Mode    string `json:"mode"` // auto | tx
+	Via     string `json:"via"`
+}
+
+// runStuckReader: a local transaction of another client holds a row lock for as long as the readers try.
+// Each SELECT … FOR UPDATE inside a global transaction must give up (bounded retries) and return; only then
+// is the lock released. Judged by termination, by leaks and by the race detector.
+func runStuckReader(c stuckCase) *pt.Failure {
+	return pt.Guard("C20/crash", func() *pt.Failure {
+		env.ResetCase()
+		n := atenv.NextCase()
+		tn := atenv.TableName(n, 0)
+		for _, q := range []string{"CREATE TABLE " + tn + " (id INT PRIMARY KEY, v INT NOT NULL)", "INSERT INTO " + tn + " VALUES (1, 10), (2, 20)"} {
+			if _, err := env.Bare.Exec(q); err != nil {
+				return pt.Failf("C20/harness/setup", "%v", err)
+			}
+		}
+		defer env.DropTables([]string{tn})
+		env.Srv.SetLockWait(50 * time.Millisecond)
+		defer env.Srv.SetLockWait(3 * time.Second)
+		holder, err := env.Bare.Begin()
+		if err != nil {
+			return pt.Failf("C20/harness/setup", "%v", err)
+		}
+		if _, err := holder.Exec("UPDATE " + tn + " SET v = v + 1 WHERE id = 1"); err != nil {
+			_ = holder.Rollback()
+			return pt.Failf("C20/harness/setup", "%v", err)
+		}
+		var wg sync.WaitGroup
+		errs := make([]string, c.Readers)
+		for i := 0; i < c.Readers; i++ {
+			wg.Add(1)
+			go func(i int) {
+				defer wg.Done()
+				_, _ = atenv.Global("c20-stuck", func(cx context.Context) error {
+					res := atenv.RunBranch(cx, env.AT, c.Mode, c.Via, false, []atenv.StmtText{{SQL: "SELECT v FROM " + tn + " WHERE id = 1 FOR UPDATE", Query: true}})
+					errs[i] = res.FirstErr()
+					if res.Failed() {
+						return errors.New(res.FirstErr())
+					}
+					return nil
+				})
+			}(i)
+		}
+		done := make(chan struct{})
+		go func() { wg.Wait(); close(done) }()
+		select {
+		case <-done:
+		case <-time.After(25 * time.Second):
+			_ = holder.Rollback()
+			<-done
+			return pt.Failf("C20/locking-read-never-gives-up/"+c.Mode, "%d locking reads against a row locked by another client were still trying after 25s (they returned only when the lock was released)", c.Readers)
+		}
+		_ = holder.Rollback()
+		for i, e := range errs {
+			if e == "" {
+				return pt.Failf("C20/locking-read-ignored-row-lock", "reader %d returned rows although another client held the row lock", i)
+			}
+		}
+		if _, open, _ := env.Srv.Stats(); open != 0 {
+			return pt.Failf("C20/transaction-left-open", "engine transaction left open on %v after the readers gave up", env.Srv.OpenTxConns())
+		}
+		return nil
+	})
+}
+
+func TestPropLockingReadGivesUp(t *testing.T) {
+	ctx.Check(t, func(rt *rapid.T) {
+		// a case costs about a second (three lock waits): one draw in six runs it
+		if rapid.IntRange(0, 5).Draw(rt, "run") != 0 {
+			return
+		}
+		c := stuckCase{Kind: "stuck-reader", Readers: rapid.IntRange(1, 3).Draw(rt, "readers"), Mode: rapid.SampledFrom([]string{"auto", "tx"}).Draw(rt, "mode"), Via: rapid.SampledFrom([]string{"db", "conn"}).Draw(rt, "via")}
+		fl := runStuckReader(c)
+		ctx.Rec.Case("stuck-reader", true, fmt.Sprintf("stuck-reader|%d|%s|%s", c.Readers, c.Mode, c.Via), c, "kind:stuck-reader")
+		ctx.Judge(rt, "stuck-reader", fl, c)
+	})
+}
+
 func TestPropReplaySaved(t *testing.T) {
 	ctx.ReplayAll(t, func(v *stats.Violation) *pt.Failure {
 		var l lbCase
@@ -597,6 +681,10 @@ func TestPropReplaySaved(t *testing.T) {
 		var b burstCase
 		if err := json.Unmarshal(v.Case, &b); err == nil && b.Kind == "burst" {
 			return runBurst(b)
+		}
+		var sc stuckCase
+		if err := json.Unmarshal(v.Case, &sc); err == nil && sc.Kind == "stuck-reader" {
+			return runStuckReader(sc)
 		}
 		var c Case
 		if err := json.Unmarshal(v.Case, &c); err != nil {
@@ -625,6 +713,13 @@ func TestReplay(t *testing.T) {
 		fl := runBurst(b)
 		ctx.Rec.Case("replay", true, string(v.Case), b)
 		ctx.Judge(t, v.Test, fl, b)
+		return
+	}
+	var sc stuckCase
+	if err := json.Unmarshal(v.Case, &sc); err == nil && sc.Kind == "stuck-reader" {
+		fl := runStuckReader(sc)
+		ctx.Rec.Case("replay", true, string(v.Case), sc)
+		ctx.Judge(t, v.Test, fl, sc)
 		return
 	}
 	fl := runCase(c)
